@@ -202,8 +202,14 @@ class C01(ProgramProperty):
             return 'C01-F2'
         if 'C01-F3' in ids and sig == 'rejects_valid' and re.search(r'[;:]\s*type\s+\w+', t):
             return 'C01-F3'
-        if 'C01-F4' in ids and sig.startswith('tree_differs') and any(c in NFKC_UNSTABLE for c in t):
-            return 'C01-F4'
+        if 'C01-F4' in ids and sig.startswith('tree_differs'):
+            import unicodedata
+            try:
+                a, b = json.loads(f.detail.get('reference', 'null')), json.loads(f.detail.get('got', 'null'))
+            except ValueError:
+                a = b = None
+            if isinstance(a, str) and isinstance(b, str) and a != b and unicodedata.normalize('NFKC', b) == a:
+                return 'C01-F4'
         if 'C01-F22' in ids and sig.endswith('AnnAssign.simple') and re.search(r'\(\s*\w+\s*\)\s*:', t):
             return 'C01-F22'
         if 'C01-F23' in ids and sig.startswith('tree_differs') and 'Match.subject' in f.detail.get('path', '') and re.search(r'match[^\n]*,\s*:', t):
